@@ -62,6 +62,8 @@ fn distinct_voters(m: &Model) -> (usize, usize) {
 /// via: 0 = ClusterConfig::add_node for every entry, then ClusterManager::new
 ///      1 = first entry in the initial config, the rest through ClusterManager::add_node
 ///      2 = configuration handed over ready-made (pub field `nodes`), through ClusterManager::new
+///      3 = like 1, and before the later members join, one symbolic id is marked active and one inactive
+///          (heartbeats from nodes that are not members yet)
 /// rm:  0 = no removal, 1..=3 = remove_node(rm) after the activity marks
 /// Symbolic: which ids are marked active, which are marked inactive afterwards, which id (if any)
 /// is told it is leader.
@@ -76,7 +78,7 @@ pub fn health(ids: &[u64], vmask: u8, via: u8, rm: u8) {
         i += 1;
     }
     let mut cfg = ClusterConfig::new(String::new(), 1);
-    let first = if via == 1 { 1 } else { n };
+    let first = if via == 1 || via == 3 { 1 } else { n };
     let mut i = 0;
     while i < first {
         if via == 2 {
@@ -95,7 +97,7 @@ pub fn health(ids: &[u64], vmask: u8, via: u8, rm: u8) {
     let ld0: u64 = kani::any(); // a leader announced BEFORE the removal (may be the node that is then removed)
     kani::assume(a1 <= 3 && a2 <= 3 && d1 <= 3 && ld <= 3 && ld0 <= 3);
     ({
-        if via == 1 {
+        if via == 3 {
             // activity reported BEFORE the later members join (a heartbeat from a node that is not a member yet)
             let p1: u64 = kani::any();
             let p2: u64 = kani::any();
